@@ -133,7 +133,8 @@ def check_with_block(prog, run):
             def t(mk=mk):
                 o = mk()
                 f = I.get_attr(o, "__exit__", None, _F())
-                err = Instance(o.cls.lookup("CheckCondition")[0]) if isinstance(o.cls.lookup("CheckCondition")[0], ClassVal) else Instance(I.bclasses["RuntimeError"])
+                _cc = prog.read_class_attr(o.cls, "CheckCondition")
+                err = Instance(_cc) if isinstance(_cc, ClassVal) else Instance(I.bclasses["RuntimeError"])
                 return I.call(f, [err.cls, err, None], {}, None, _F())
             ps = I.explore(t, max_paths=16)
         finally:
@@ -161,14 +162,14 @@ def check_classes(prog, run):
     for modname, clsname in reft.DEVICE_CLASSES:
         cls = prog.cls(modname, clsname)
         for name in sorted(set(reft.STATUS_EXCEPTION.values())):
-            v, owner = cls.lookup(name)
+            v = prog.read_class_attr(cls, name)
             c = "%s.%s" % (clsname, name)
             if isinstance(v, ClassVal) and v.is_subclass(prog.I.bclasses["Exception"]):
                 run.ok("status-exception-class-exists", c)
             else:
                 run.violation("status-exception-class-exists", c, "%s has no exception class %s" % (clsname, name),
                               prog.rel(cls.module), cls.node.lineno)
-        cc = cls.lookup("CheckCondition")[0]
+        cc = prog.read_class_attr(cls, "CheckCondition")
         base = prog.cls("pyscsi.pyscsi.scsi_sense", "SCSICheckCondition")
         if isinstance(cc, ClassVal) and not cc.is_subclass(base):
             run.violation("check-condition-decodes-sense", "%s.CheckCondition" % clsname,
